@@ -62,13 +62,56 @@ def build_harness():
         shutil.copy(os.path.join(REPO, "Cargo.lock"), lock)
     t0 = time.time()
     env = dict(os.environ, CARGO_NET_OFFLINE="true")
-    r = subprocess.run(["cargo", "build", "--offline", "--quiet"], cwd=HARNESS, env=env,
-                       stdout=subprocess.PIPE, stderr=subprocess.STDOUT, text=True)
-    if r.returncode != 0:
-        raise ToolError("harness build failed (the /repo tree does not compile with the harness):\n" + r.stdout[-4000:])
-    log(f"[build] harness ok in {time.time()-t0:.1f}s")
+    # The sub-commands that reach into the compiler's internals are cargo features of the harness.  When an internal
+    # interface changed and one of them no longer compiles, the harness is built without it: the checks that need it
+    # stop with a tool error that says so, the others run.
+    all_feats = sorted(set(HARNESS_FEATURES.values()))
+    feats = list(all_feats)
+    missing = {}
+    for _ in range(len(all_feats) + 1):
+        cmd = ["cargo", "build", "--offline", "--quiet"]
+        if len(feats) != len(all_feats):
+            cmd += ["--no-default-features", "--features", ",".join(feats)]
+        r = subprocess.run(cmd, cwd=HARNESS, env=env, stdout=subprocess.PIPE, stderr=subprocess.STDOUT, text=True)
+        if r.returncode == 0:
+            break
+        bad = {}
+        for m in re.finditer(r"^(error[^\n]*)\n\s*--> src/(\w+)\.rs:(\d+)", r.stdout, re.M):
+            f = HARNESS_FEATURES.get(m.group(2))
+            if f is None:
+                raise ToolError("harness build failed (the /repo tree does not compile with the harness):\n" + r.stdout[-4000:])
+            bad.setdefault(f, f"{m.group(1)} (harness/src/{m.group(2)}.rs:{m.group(3)})")
+        bad = {f: w for f, w in bad.items() if f in feats}
+        if not bad:
+            raise ToolError("harness build failed (the /repo tree does not compile with the harness):\n" + r.stdout[-4000:])
+        missing.update(bad)
+        feats = [f for f in feats if f not in bad]
+    else:
+        raise ToolError("harness build failed:\n" + r.stdout[-4000:])
+    _built["missing"] = missing
+    log(f"[build] harness ok in {time.time()-t0:.1f}s" + (f" WITHOUT {sorted(missing)}" if missing else ""))
     _built["gv"] = True
     return GV
+
+
+# source file of the harness -> cargo feature
+HARNESS_FEATURES = {"ir_export": "ir", "names_cmd": "names", "query_cmd": "query", "hir_cmd": "hir", "ast_export": "asttrees"}
+
+
+def _need_for(cmd, requests):
+    if cmd in ("names", "query", "hir"):
+        need_feature(cmd)
+    elif cmd == "parse" and any(r.get("mode", "ast") == "ast" for r in requests[:50]):
+        need_feature("asttrees")
+    elif cmd == "compile" and any(r.get("ir_json") for r in requests[:50]):
+        need_feature("ir")
+
+
+def need_feature(f):
+    """tool error (exit 2) when the harness had to be built without feature f"""
+    w = _built.get("missing", {}).get(f)
+    if w:
+        raise ToolError(f"the harness sub-command behind feature `{f}` does not compile against this tree (an internal interface of the compiler changed): {w}")
 
 
 def build_cli():
@@ -91,6 +134,7 @@ def build_cli():
 def gv(cmd, requests, extra=(), timeout=3600):
     """Run one gv sub-command over a list of request dicts; returns list of answer dicts (same order)."""
     build_harness()
+    _need_for(cmd, requests)
     inp = "\n".join(json.dumps(r) for r in requests) + "\n"
     r = subprocess.run([GV, cmd, *extra], input=inp, stdout=subprocess.PIPE, stderr=subprocess.PIPE,
                        text=True, timeout=timeout)
@@ -105,6 +149,7 @@ def gv(cmd, requests, extra=(), timeout=3600):
 def gv_parallel(cmd, requests, extra=(), shards=None, timeout=3600):
     """Shard requests over processes (a crash of one shard is a tool error, panics are data)."""
     build_harness()
+    _need_for(cmd, requests)
     shards = shards or min(NCPU, max(1, len(requests) // 50))
     if shards <= 1:
         return gv(cmd, requests, extra, timeout)
@@ -142,6 +187,7 @@ def gv_robust(cmd, requests, extra=(), shards=None, timeout=3600, mem_gb=3):
     one dies (allocation failure -> abort, stack overflow, kill), the request it was working on gets the verdict "abort"
     and the remaining requests of the shard continue in a fresh process."""
     build_harness()
+    _need_for(cmd, requests)
     import resource, threading
     shards = shards or min(NCPU, max(1, len(requests) // 50))
     chunks = [requests[i::shards] for i in range(shards)]
